@@ -101,14 +101,27 @@ func For[V any](
 	return func(c *co[V], k cont[V]) {
 		var loop func(skipPost bool)
 		loop = func(skipPost bool) {
-			if post != nil && !skipPost {
-				post()
-			}
-			if cond == nil || cond() {
+			// trampoline: an iteration whose body completes without suspending
+			// asks for another turn of this for instead of re-entering loop from
+			// inside the body's continuation, so the stack does not grow with
+			// the number of iterations between two yields
+			for {
+				if post != nil && !skipPost {
+					post()
+				}
+				if cond != nil && !cond() {
+					k(kNormal, zero[V]())
+					return
+				}
+				running, again := true, false
 				body(c, func(t contType, v V) {
 					switch t {
 					case kNormal, kContinue:
-						loop(false)
+						if running {
+							again = true
+						} else {
+							loop(false)
+						}
 					case kBreak:
 						k(kNormal, zero[V]())
 					case kReturn:
@@ -117,8 +130,11 @@ func For[V any](
 						panic("unreachable")
 					}
 				})
-			} else {
-				k(kNormal, zero[V]())
+				running = false
+				if !again {
+					return
+				}
+				skipPost = false
 			}
 		}
 		loop(true)
